@@ -20,12 +20,13 @@ META = {
         "on a long-lived object (allowed cross-call state: _connection, _extra_headers, verbose, the header stack); C19.4 the "
         "constructors of the three transports, of the Unix connection and of TransportError run the constructors of their bases on every "
         "normal path (the stdlib transport sets up the connection cache that close() and the recovery rely on; TransportError carries "
-        "URL and status through ProtocolError), and UnixTransport.make_connection returns the connection it caches."),
+        "URL and status through ProtocolError), and UnixTransport.make_connection returns the connection it caches; C19.5 on the non-200 path the response is only drained (response.read()) under the true edge of getheader(`content-length`) with an absent or falsy default - a reply without a declared length is never read to the end of the stream, so the TransportError is always reached."),
     "does_not_decide": "recovery within one call, stale/foreign responses caused by the http.client connection state "
                        "machine or by the retry inside xmlrpc.client.Transport.request (external fault-sequence behaviour).",
     "rules": {"C19.1": "handler structure + dominance", "C19.2": "normalised status test + dominance + raise-site arguments",
               "C19.3": "provenance of returned values + store scan against the allowed cross-call state table (spec A.10)",
-              "C19.4": "must-call of base constructors on normal paths; provenance of make_connection's result"},
+              "C19.4": "must-call of base constructors on normal paths; provenance of make_connection's result",
+              "C19.5": "guards of the drain call (dominating branches, constant default)"},
     "assumptions": ["xmlrpc.client.Transport.close() drops the cached connection; parse_response feeds the parser returned by getparser()"],
 }
 
@@ -135,6 +136,43 @@ def check(ck):
             reach = reachable_avoiding(g, b.id, set([rn.id]), lambda l: l != "exc")
             ck.require(g.return_exit.id not in reach, "C19.2", "%s: non-200 paths end in TransportError" % q.fn(fs), "no return on the false edge",
                        "a non-200 reply can lead to a normal return", q.loc(fs, b))
+
+    # ---- C19.5 the drain of a non-200 reply cannot wait for the end of the stream -----------------------------------------------
+    # response.read() without a declared length reads until the peer closes: on the error path it may only run when the
+    # reply declares a Content-Length, i.e. under the true edge of getheader("content-length"[, <falsy default>]).
+    n5 = 0
+    for n in g.live_nodes():
+        for c in node_calls(n):
+            if not (isinstance(c.func, ast.Attribute) and c.func.attr in ("read", "readlines", "readline", "readinto", "read1")):
+                continue
+            t = prov.origin(g, n, c.func.value)
+            if not all(a[0] == "call" and a[1][0] == "attr" and a[1][2] == "getresponse" for a in prov.value_alts(t)):
+                continue
+            n5 += 1
+            ok5, why = False, "the read is not guarded by a Content-Length test"
+            for (tst, pol) in q.guards_of(g, n, d):
+                if isinstance(tst, ast.Call) and isinstance(tst.func, ast.Attribute) and tst.func.attr == "getheader" and tst.args:
+                    try:
+                        nm = prog.const("jsonrpc", tst.args[0])
+                    except AnalysisError:
+                        nm = None
+                    if not (isinstance(nm, str) and nm.lower() == "content-length"):
+                        continue
+                    dflt = tst.args[1] if len(tst.args) > 1 else kwarg(tst, "default", 1)
+                    try:
+                        dv = prog.const("jsonrpc", dflt) if dflt is not None else None
+                        known = True
+                    except AnalysisError:
+                        dv, known = None, False
+                    if pol and known and not dv:
+                        ok5 = True
+                    elif pol:
+                        why = "the Content-Length test has the default `%s`, which is true when the header is absent" % dump(dflt)
+            ck.require(ok5, "C19.5", "%s: `%s` on the error path" % (q.fn(fs), dump(c)), "only when a Content-Length is declared",
+                       "a non-200 reply is drained with `%s` although %s: for a reply without Content-Length on a connection the peer keeps "
+                       "open the call blocks until the end of the stream - it neither returns nor raises TransportError" % (dump(c), why), q.loc(fs, n))
+    ck.ok("C19.5", "%s: reads of the response on the error path" % q.fn(fs), "%d examined" % n5, q.loc(fs, fs.node))
+    ck.floor("C19.5", 1)
 
     # ---- C19.3 own result only ----------------------------------------------------------------------------
     freq = prog.func("jsonrpc", "ServerProxy._request")
